@@ -11,16 +11,18 @@ ExtClasses(sys) == MarkedNames(sys) \cap (ClassNamesOf(sys) \cup {"u"})
 \* ordering edges once the marks are applied: an unmarked class needs what its equation reads, a marked class what its mark
 \* declares; reading an (unmarked) state orders nothing
 UnmarkedState(sys, d) == d \in ClassNamesOf(sys) /\ Get(sys, d).role = "state" /\ ~IsExt(sys, d)
-Needs(sys, n) == IF n = "u" THEN {}
+Needs(sys, n) == IF n = "w" \/ (n = "u" /\ IsExt(sys, "u")) THEN {}
+                 ELSE IF n = "u" THEN {NlaDep(sys)} \ ({NoneS, "t"} \cup {d \in ClassNamesOf(sys) : UnmarkedState(sys, d)})    \* u + u = 8 + nlaDep
                  ELSE IF IsExt(sys, n) THEN {d \in DeclaredDeps(sys, n) : ~UnmarkedState(sys, d)}
                  ELSE LET c == Get(sys, n) IN {c.deps[j] : j \in DOMAIN c.deps} \ ({"t"} \cup {d \in ClassNamesOf(sys) : UnmarkedState(sys, d)})
 RECURSIVE Reach(_, _, _)
 Reach(sys, S, k) == IF k = 0 THEN S ELSE Reach(sys, S \cup UNION {Needs(sys, n) : n \in S}, k - 1)
-OrderAcyclic(sys) == \A n \in ClassNamesOf(sys) : n \notin Reach(sys, Needs(sys, n), 4)
+OrderAcyclic(sys) == \A n \in ClassNamesOf(sys) : n \notin Reach(sys, Needs(sys, n), 5)
 \* does the value of class n depend on an external variable (through equations; a marked class does, trivially)
 RECURSIVE ReadsExt(_, _, _)
-ReadsExt(sys, n, depth) == IF n = "t" \/ depth = 0 THEN FALSE
+ReadsExt(sys, n, depth) == IF n \in {"t", "w"} \/ depth = 0 THEN FALSE
                            ELSE IF IsExt(sys, n) THEN TRUE
+                           ELSE IF n = "u" THEN NlaDep(sys) # NoneS /\ ReadsExt(sys, NlaDep(sys), depth - 1)    \* u + u = 8 + nlaDep
                            ELSE LET c == Get(sys, n) IN \E j \in DOMAIN c.deps : ReadsExt(sys, c.deps[j], depth - 1)
 Untouched(sys, n) == ~ReadsExt(sys, n, 6)
 
@@ -35,7 +37,7 @@ MarkSets(sys, maxMarks, withDeps) ==
     LET M == AllMarks(sys, withDeps) IN
     {<<m>> : m \in M}
     \cup (IF maxMarks < 2 THEN {} ELSE UNION {{SetToSeq({m1, m2}) : m2 \in {m \in M : <<m.name, m.comp>> # <<m1.name, m1.comp>>}} : m1 \in M})
-WithMarks(sys, ms, step) == [classes |-> sys.classes, nla |-> sys.nla, fault |-> sys.fault, marks |-> ms, step |-> step]
+WithMarks(sys, ms, step) == [classes |-> sys.classes, nla |-> sys.nla, nlaDep |-> NlaDep(sys), fault |-> sys.fault, marks |-> ms, step |-> step]
 \* the fault of an uninitialised constant is cured by marking it; a marked class must not be ordered after itself
 Admissible(sys) ==
     /\ OrderAcyclic(sys)
@@ -50,9 +52,11 @@ TypeAfter(sys) == IF "u" \in ExtClasses(sys) THEN {IF HasStates(sys) THEN "ode" 
                   ELSE IF \E n \in ExtClasses(sys) : Get(sys, n).role = "state" THEN ValidTypes
                   ELSE {ExpectedType(sys)}
 \* ---------------------------------------------------------------- values after step 1 / step 2
-Names2(s) == SetToSeq(ClassNamesOf(s) \cup (IF "u" \in ExtClasses(s) THEN {"u"} ELSE {}))
+\* (the unknowns of the implicit equations are part of the expectation whenever a class or the equation couples them with the rest)
+Coupled(s) == NlaDep(s) # NoneS \/ ReadsU(s)
+Names2(s) == SetToSeq(ClassNamesOf(s) \cup (IF "u" \in ExtClasses(s) \/ (HasNla(s) /\ Coupled(s)) THEN {"u"} ELSE {}) \cup (IF HasW(s) /\ Coupled(s) THEN {"w"} ELSE {}))
 ExpectOf(s) == LET s2 == [s EXCEPT !.step = 1] nm == Names2(s) IN
-    [i \in DOMAIN nm |-> LET n == nm[i] isState == n # "u" /\ Get(s, n).role = "state" /\ ~IsExt(s, n) IN
+    [i \in DOMAIN nm |-> LET n == nm[i] isState == n \notin {"u", "w"} /\ Get(s, n).role = "state" /\ ~IsExt(s, n) IN
         [name |-> n, A |-> Seen(s, n, "A", 6), B |-> Seen(s, n, "B", 6), rate |-> IF isState THEN Rate(s, n) ELSE Undef,
                      A2 |-> Seen(s2, n, "A", 6), B2 |-> Seen(s2, n, "B", 6), rate2 |-> IF isState THEN Rate(s2, n) ELSE Undef]]
 =============================================================================
